@@ -9,7 +9,7 @@ from mc.build import ci as CI
 from mc.build import im as IM
 from mc.build import misc as MISC
 from mc.build import ti as TI
-from mc.core.util import call
+from mc.core.util import call, exc_name
 from mc.models import validator_table as VT
 
 ID = "C06"
@@ -210,7 +210,11 @@ def eval_corruption(base, label, vi):
     for lab, kind, setter, values in positions(obj):
         if lab == label:
             vals = values if values is not None else VT.corrupt_values(kind)
-            setter(obj, vals[vi])
+            try:
+                setter(obj, vals[vi])
+            except (TypeError, ValueError) as exc:
+                # the library refuses the value already when it is assigned: no invalid object exists that could be written
+                return {"value": repr(vals[vi]), "result": exc_name(exc), "refused_at": "assignment"}
             r = call(dumper, obj) if dumper else call(obj.dumps)
             return {"value": repr(vals[vi]), "result": "text returned" if r[0] == "ok" else r[1]}
     raise KeyError("%s has no position %s" % (base, label))
